@@ -173,3 +173,61 @@ def history(rng, ty, order, profile, allow_delete=True, nops=None):
     for k in starts:
         lines.append("scan %s -1" % k)
     return lines
+
+
+# (order, keys) pairs that push a tree of that order to three levels (more than
+# order*order/2 keys) or at least to a root with many wide children
+LARGE_QUICK = [(64, 2200), (128, 8400), (32, 1300), (256, 3000)]
+LARGE_THOROUGH = LARGE_QUICK + [(256, 33500), (512, 20000), (1024, 12000), (16, 5000), (8, 3000)]
+
+
+def asc_keys(ty, n, rng):
+    """n ascending key tokens of the given type"""
+    if ty == "str":
+        # string keys are written as dot-separated byte values: three base-200 "digits"
+        return ["%d.%d.%d" % (i // 40000 + 33, (i // 200) % 200 + 33, i % 200 + 33) for i in range(n)]
+    if ty == "cmp":
+        return [("%d#%d" % (i, i % 3)) if i % 5 == 1 else str(i) for i in range(n)]
+    lo = {"i64": -n // 2, "i32": -n // 2, "u64": 0, "u32": 0}[ty]
+    step = rng.choice([1, 1, 2, 7])
+    return [str(lo + i * step) for i in range(n)]
+
+
+def large_history(rng, ty, order, n):
+    """Bulk load of n keys (ascending, descending, shuffled or alternating ends), a lookup of
+    every key (so keys equal to separators are all probed), removal of a third (scattered or
+    one contiguous range, which merges nodes at every level), re-insertion of some; snapshots
+    and a full scan in between."""
+    keys = asc_keys(ty, n, rng)
+    load = list(keys)
+    mode = rng.choice(["asc", "desc", "shuf", "ends"])
+    if mode == "desc":
+        load.reverse()
+    elif mode == "shuf":
+        rng.shuffle(load)
+    elif mode == "ends":
+        load = [keys[i // 2] if i % 2 == 0 else keys[n - 1 - i // 2] for i in range(n)]
+    lines = ["begin", "new %s %d" % (ty, order)]
+    for i, k in enumerate(load):
+        lines.append("ins %s %d" % (k, i % 89))
+    lines.append("snap")
+    for k in keys:
+        lines.append("get %s" % k)
+    if rng.random() < 0.5:
+        a = rng.randrange(0, n - n // 3)
+        dels = keys[a: a + n // 3]
+        if rng.random() < 0.5:
+            dels.reverse()
+    else:
+        dels = rng.sample(keys, n // 3)
+    for k in dels:
+        lines.append("del %s" % k)
+    lines.append("snap")
+    for k in rng.sample(keys, min(n, 400)):
+        lines.append("get %s" % k)
+    lines.append("scan %s -1" % keys[0])
+    for k in rng.sample(dels, min(len(dels), n // 10)):
+        lines.append("upd %s a1" % k)
+    lines.append("snap")
+    lines.append("scan %s 50" % keys[n // 2])
+    return lines
